@@ -327,7 +327,12 @@ static const char *setarg(char *buf, size_t n, const char *s) { if (!s) return N
 #define DARG(s) setarg(c->dbuf, sizeof c->dbuf, (s))
 #define CARG(s) setarg(c->cbuf, sizeof c->cbuf, (s))
 
-static void *fifo_drain(void *p) { usleep(300000); int fd = open((const char *)p, O_RDONLY); if (fd >= 0) { char b[4096]; while (read(fd, b, sizeof b) > 0) {} close(fd); } return NULL; }
+/* reader side of `writeslow`: opens the pipe 0.3 s after the write began (the writer's open waits for it) and takes what comes
+   until the write call has returned - also when that call never opened the pipe at all (no object: refused at once) */
+struct drain { const char *path; _Atomic int done; };
+static void *fifo_drain(void *p) { struct drain *dr = p; usleep(300000); int fd = open(dr->path, O_RDONLY | O_NONBLOCK);
+  if (fd >= 0) { char b[4096]; for (;;) { ssize_t n = read(fd, b, sizeof b); if (n > 0) continue; if (dr->done) { while (read(fd, b, sizeof b) > 0) {} break; } usleep(2000); } close(fd); }
+  return NULL; }
 struct thr_arg { struct ctx c; char *script; int id; };
 static void *thr_main(void *p) {
   struct thr_arg *a = p;
@@ -395,6 +400,9 @@ static int run_cmd(struct ctx *c, char **t, int nt) {
   if (!strcmp(op, "cbread")) { free(c->cb_read_path); c->cb_read_path = tokstr(ARG(1), NULL); return 0; }
   if (!strcmp(op, "cbreset")) { cb_reset(c); return 0; }
   if (!strcmp(op, "cbopenfd")) { c->cb_openfd = atoi(ARG(1)); return 0; }
+  if (!strcmp(op, "fdcount")) {   /* number of open descriptors of the process (a call that fails must not leave one behind) */
+    int n = 0; DIR *d = opendir("/proc/self/fd"); if (d) { struct dirent *de; while ((de = readdir(d))) if (de->d_name[0] != '.') n++; closedir(d); n--; }
+    fprintf(o, "{\"op\":\"fdcount\",\"n\":%d}\n", n); return 0; }
   if (!strcmp(op, "fdcheck")) {   /* every descriptor the callback opened is still open and still the same file; they are closed here */
     int bad = 0; struct stat sn, sb; int have = stat("/dev/null", &sn) == 0;
     for (int i = 0; i < c->cb_nfds; i++) {
@@ -468,8 +476,9 @@ static int run_cmd(struct ctx *c, char **t, int nt) {
      the file for about 0.3 s (a reader thread then drains and removes the pipe); other threads' calls happen meanwhile */
   if (!strcmp(op, "writeslow")) { int h = HND(1); char *d = tokstr(ARG(2), NULL), *n = tokstr(ARG(3), NULL); char *fp = NULL; pthread_t rt; int have = 0;
     if (asprintf(&fp, "%s/%s", d, n) < 0) fp = NULL; mkparent(fp); unlink(fp);
-    if (fp && mkfifo(fp, 0600) == 0 && pthread_create(&rt, NULL, fifo_drain, fp) == 0) have = 1;
-    e = have ? econf_writeFile(c->H[h], d, n) : ECONF_ERROR; if (have) pthread_join(rt, NULL);
+    struct drain dr = { fp, 0 };
+    if (fp && mkfifo(fp, 0600) == 0 && pthread_create(&rt, NULL, fifo_drain, &dr) == 0) have = 1;
+    e = have ? econf_writeFile(c->H[h], d, n) : ECONF_ERROR; dr.done = 1; if (have) pthread_join(rt, NULL);
     fprintf(o, "{\"op\":\"writeslow\",\"h\":%d", h); jrc(o, e); fputs("}\n", o); if (fp) unlink(fp); free(fp); free(d); free(n); return 0; }
   if (!strcmp(op, "free")) { int h = HND(1); econf_file *r = econf_freeFile(c->H[h]); c->H[h] = NULL;
     fprintf(o, "{\"op\":\"free\",\"h\":%d,\"ret_null\":%s}\n", h, r == NULL ? "true" : "false"); return 0; }
